@@ -2,11 +2,43 @@ use cached_verif::conc::*;
 use cached_verif::runner::*;
 fn main() {
     cached_verif::base::install_panic_hook();
+    if std::env::args().nth(1).as_deref() == Some("sweep-vs-reput") {
+        let mut fails = 0;
+        for _ in 0..20 { if let Some(failure) = sweep_vs_reput_scenario(30) { fails += 1; if fails == 1 { println!("{}", failure.message); } } }
+        println!("{} of 20 failed", fails);
+        return;
+    }
     let path = std::env::args().nth(1).unwrap();
+    let n: usize = std::env::args().nth(2).and_then(|s| s.parse().ok()).unwrap_or(50);
     let replay = read_replay(&path).unwrap();
     let case: ConcCase = decode_case(&replay.case).unwrap();
-    for _ in 0..5 {
+    let mut fails = 0;
+    for i in 0..n {
         let run = run_conc_case(&case, std::time::Duration::from_secs(10));
-        println!("trace {} recs {} shutdown {} blocked {:?} check {:?}", run.history.trace.len(), run.history.recs.len(), run.history.shutdown_called, run.history.blocked, check_conc(&case, &run, "C13").err().map(|f| f.tag));
+        if let Err(f) = check_conc(&case, &run, &replay.property) {
+            fails += 1;
+            if fails <= 2 {
+                println!("run {}: {} {}", i, f.tag, &f.message[..f.message.len().min(300)]);
+                let key: u8 = std::env::args().nth(3).and_then(|s| s.parse().ok()).unwrap_or(0);
+                let mut acks = std::collections::HashMap::new();
+                for rec in &run.history.recs {
+                    if let Outcome::Write { key: k, ack, kind, status, in_place, ttl_ns, seen_done, immediate, .. } = &rec.outcome {
+                        if *k == key { println!("  rec t{} op{} [{}..{}] seen {} {} imm {:?} status {:?} in_place {:?} ttl {:?} ack {:#x}", rec.thread, rec.index, rec.start, rec.end, seen_done, kind, immediate, status, in_place, ttl_ns, ack); acks.insert(*ack, (rec.thread, rec.index)); }
+                    }
+                }
+                for event in &run.history.trace {
+                    match event {
+                        TraceEvent::Executed { ack, kind, status, begin, end, .. } => { if let Some(who) = acks.get(ack) { println!("  exec [{}..{}] {} {:?} of t{} op{}", begin, end, kind, status, who.0, who.1); } }
+                        TraceEvent::Swept { id, stamp } => println!("  swept id {} at {}", id, stamp),
+                        TraceEvent::Admission { id, weight, space_left } => println!("  admission id {} w {} free {}", id, weight, space_left),
+                        TraceEvent::Evicted { incoming, victim } => println!("  evicted victim {} for incoming {}", victim, incoming),
+                        _ => {}
+                    }
+                }
+                println!("  clock {:?} rotation_start {}", run.history.clock_log, run.history.rotation_start_ns);
+                if let Some(snapshot) = &run.snapshot { println!("  store {:?}\n  weights {:?}\n  ttl {:?}", snapshot.store.iter().map(|e| (e.key, e.id, e.expire_after.map(cached_verif::base::since_epoch))).collect::<Vec<_>>(), snapshot.weights.iter().map(|e| (e.id, e.key, e.weight)).collect::<Vec<_>>(), snapshot.ttl.iter().map(|e| (e.id, cached_verif::base::since_epoch(e.expire_after), e.shard)).collect::<Vec<_>>()); }
+            }
+        }
     }
+    println!("{} of {} runs failed", fails, n);
 }
